@@ -1546,8 +1546,12 @@ impl FixtureDatabase {
         let mut visited: HashSet<String> = HashSet::new();
         let mut seen_cycles: HashSet<String> = HashSet::new(); // Deduplicate cycles
 
-        // Iterative DFS using explicit stack
-        for start_fixture in dep_graph.keys() {
+        // Iterative DFS using explicit stack.
+        // Visit the roots in a fixed (sorted) order: HashMap iteration order is randomly
+        // seeded, and the root order decides which fixture of a cycle carries the report.
+        let mut start_fixtures: Vec<&String> = dep_graph.keys().collect();
+        start_fixtures.sort();
+        for start_fixture in start_fixtures {
             if visited.contains(start_fixture) {
                 continue;
             }
